@@ -1,7 +1,127 @@
 package main
 
-// tryReplay turns the solver model of a failed obligation into a test against the real code.
-// Returns true when the failure was reproduced on the compiled code.
+// Replay of solver counterexamples on the compiled real code: the observed values of the model are
+// substituted into a Go test template, which is injected into the function's own package with
+// `go test -overlay` (nothing is written into /repo) and must FAIL to count as a reproduced violation.
+
+import (
+	"bytes"
+	"context"
+	"encoding/json"
+	"fmt"
+	"os"
+	"os/exec"
+	"path/filepath"
+	"strings"
+	"text/template"
+	"time"
+)
+
 func tryReplay(verif, repo, prop string, r OblResult, replayPath string) bool {
-	return false
+	c := r.Contract
+	if c == nil || c.Replay == "" || r.Status != "failed" {
+		return false
+	}
+	f := strings.Fields(c.Replay)
+	tmplPath := filepath.Join(verif, "replay", f[0]+".go.tmpl")
+	tb, err := os.ReadFile(tmplPath)
+	if err != nil {
+		appendFile(replayPath, "replay: template missing: "+err.Error()+"\n")
+		return false
+	}
+	data := map[string]interface{}{}
+	for k, v := range r.Observed {
+		data[k] = v
+	}
+	data["Panicking"] = r.Panicking
+	data["Obligation"] = r.Name
+	tm, err := template.New("replay").Option("missingkey=error").Parse(string(tb))
+	if err != nil {
+		appendFile(replayPath, "replay: bad template: "+err.Error()+"\n")
+		return false
+	}
+	var buf bytes.Buffer
+	if err := tm.Execute(&buf, data); err != nil {
+		appendFile(replayPath, fmt.Sprintf("replay: model does not give every input of the template (%v); observed=%v\n", err, r.Observed))
+		return false
+	}
+	testFile := strings.TrimSuffix(replayPath, ".replay") + "_replay_test.go"
+	os.WriteFile(testFile, buf.Bytes(), 0o644)
+	rel := strings.TrimPrefix(strings.TrimPrefix(c.Pkg, modulePrefix), "/")
+	ok, out := runOverlayTest(repo, rel, testFile, "TestVerifReplay")
+	appendFile(replayPath, fmt.Sprintf("---- replay ----\ninputs from the model: %v\ntest: %s\npackage: ./%s\nreproduced on the real code: %v\n%s\n", r.Observed, testFile, rel, ok, out))
+	return ok
+}
+
+func appendFile(path, s string) {
+	f, err := os.OpenFile(path, os.O_APPEND|os.O_WRONLY|os.O_CREATE, 0o644)
+	if err != nil {
+		return
+	}
+	defer f.Close()
+	f.WriteString(s)
+}
+
+// runOverlayTest injects testFile into package dir `rel` of repo and runs the named test.
+// Returns true when the test FAILED (i.e. the violation shows on the real code).
+func runOverlayTest(repo, rel, testFile, testName string) (bool, string) {
+	mf, cleanup, err := scratchModfile(repo)
+	if err != nil {
+		return false, err.Error()
+	}
+	defer cleanup()
+	dir := filepath.Dir(mf)
+	target := filepath.Join(repo, rel, "zz_verif_replay_test.go")
+	ov := map[string]map[string]string{"Replace": {target: testFile}}
+	ob, _ := json.Marshal(ov)
+	ovPath := filepath.Join(dir, "overlay.json")
+	os.WriteFile(ovPath, ob, 0o644)
+	ctx, cancel := context.WithTimeout(context.Background(), 180*time.Second)
+	defer cancel()
+	cmd := exec.CommandContext(ctx, "go", "test", "-overlay", ovPath, "-vet=off", "-count=1", "-timeout", "60s", "-modfile="+mf, "-run", "^"+testName+"$", "./"+rel)
+	cmd.Dir = repo
+	cmd.Env = append(os.Environ(), "GOFLAGS=-mod=mod", "GOPROXY=off", "GOSUMDB=off", "GOTOOLCHAIN=local", "GOWORK=off")
+	out, err := cmd.CombinedOutput()
+	s := string(out)
+	if len(s) > 6000 {
+		s = s[:6000] + "\n...[truncated]"
+	}
+	failed := err != nil && strings.Contains(s, "--- FAIL: "+testName)
+	return failed, s
+}
+
+func cmdReplay(args []string) int {
+	if len(args) < 1 {
+		fmt.Fprintln(os.Stderr, "usage: govc replay <file.replay>")
+		return 2
+	}
+	path := args[0]
+	b, err := os.ReadFile(path)
+	if err != nil {
+		fmt.Fprintln(os.Stderr, err)
+		return 2
+	}
+	fmt.Print(string(b))
+	testFile := strings.TrimSuffix(path, ".replay") + "_replay_test.go"
+	if _, err := os.Stat(testFile); err != nil {
+		fmt.Println("no replay test was generated for this obligation (no-failing-input-found)")
+		return 0
+	}
+	// package from the replay record
+	rel := ""
+	for _, l := range strings.Split(string(b), "\n") {
+		if strings.HasPrefix(l, "package: ./") {
+			rel = strings.TrimPrefix(l, "package: ./")
+		}
+	}
+	repo := "/repo"
+	if len(args) > 1 {
+		repo = args[1]
+	}
+	ok, out := runOverlayTest(repo, rel, testFile, "TestVerifReplay")
+	fmt.Printf("---- re-run now ----\n%s\nreproduced: %v\n", out, ok)
+	if ok {
+		return 1
+	}
+	return 0
 }
